@@ -14,7 +14,7 @@ Open Scope Z_scope.
 
 Ltac scbn := cbn [cu_keys cu_objs cus dies abbrevs lines e_secmap e_symmap e_numtags cur frames
                   set_cu_cache set_cus set_dies set_abbrevs set_lines set_secmap set_symmap set_numtags
-                  set_cur set_frames cfis set_cfis].
+                  set_cur set_frames cfis set_cfis tu_map set_tu_map].
 
 Lemma bind_get_cu {B} id c (k : cu_obj -> M B) s : nth_error (cus s) id = Some c -> bindM (get_cu id) k s = k c s.
 Proof. intros H. unfold bindM, get_cu, nth_res. rewrite H. reflexivity. Qed.
@@ -134,6 +134,7 @@ Section Units.
         * intros id c Hn. apply in_combine_insert; [exact Hl|]. apply nth_error_snoc in Hn.
           destruct Hn as [[_ Hn]|[-> ->]]; [right; apply (inv_cuheap _ _ HI); exact Hn|left; reflexivity].
         * apply (inv_cfis _ _ HI).
+        * apply (inv_tumap _ _ HI).
       + split; [scbn; apply cus_mono_snoc|]. split; [scbn; apply dies_mono_refl|reflexivity].
       + exists newc. scbn. split; [apply nth_error_snoc_new|reflexivity].
   Qed.
@@ -287,7 +288,7 @@ Section Units.
       assert (Hmono : cus_mono (cus s) (upd_nth cu f (cus s))).
       { apply cus_mono_upd. intros c0 _. repeat split; auto using incl_refl. }
       eexists _, _. split; [reflexivity|]. split; [|split; [|split]].
-      + destruct HI as [I1 I2 I3 I4 I5 I6 I7 I8 I9 I10 I11 I12]. constructor; scbn; auto.
+      + destruct HI as [I1 I2 I3 I4 I5 I6 I7 I8 I9 I10 I11 I12 I13]. constructor; scbn; auto.
         * intros k id Hin. destruct (I3 _ _ Hin) as (c0 & Hc0 & Ec0).
           destruct (Hmono _ _ Hc0) as (c0' & Hc0' & Eo & _). exists c0'. split; congruence.
         * intros id x Hx. apply nth_error_upd_nth in Hx. destruct Hx as [(-> & y & Hy & ->)|(Hne & Hx)]; [|auto].
@@ -354,7 +355,7 @@ Section Units.
     assert (Hdm : dies_mono (dies s) (dies s ++ [nd])) by apply dies_mono_snoc.
     assert (Hfc : nth_error (upd_nth cu f (cus s)) cu = Some (f c)) by (apply nth_error_upd_nth_same; exact Hc).
     split; [|split].
-    - destruct HI as [I1 I2 I3 I4 I5 I6 I7 I8 I9 I10 I11 I12]. unfold s'. constructor; scbn; auto.
+    - destruct HI as [I1 I2 I3 I4 I5 I6 I7 I8 I9 I10 I11 I12 I13]. unfold s'. constructor; scbn; auto.
       + intros k id Hin. destruct (I3 _ _ Hin) as (c0 & Hc0 & Ec0).
         destruct (Hmono _ _ Hc0) as (c0' & Hc0' & Eo & _). exists c0'. split; congruence.
       + intros id x Hx. apply nth_error_upd_nth in Hx. destruct Hx as [(-> & y & Hy & ->)|(Hne & Hx)].
